@@ -261,6 +261,15 @@ def _eq_node(expr):
     return n
 
 
+def _inside(n, anc):
+    x = n
+    while x is not None and isinstance(x, Node):
+        if x is anc:
+            return True
+        x = x.parent
+    return False
+
+
 def ob_query_args(ctx, res):
     """call sites of the block decoders pass the query (chrom, start, end) unchanged in the last three positions"""
     sites = [(RW, "get_block_values"), (RB, "get_block_entries"), (R, "get_zoom_block_values")]
@@ -419,21 +428,45 @@ def ob_overlaps(ctx, res):
                 and len(set(x.rsplit(".", 1)[0] for x in o[3:])) == 1):
             res.fail("overlaps/args", c, "overlaps must be called with (chrom, start, end, child.start_chrom_ix, child.start_base, child.end_chrom_ix, child.end_base); got %s" % [up(a) for a in c["args"]])
             return
-        # the `if` pushes the child iff overlaps
+        # the child is kept iff overlaps(..): either `for child in .. { if overlaps(..) { push } }` or `.filter(|child| overlaps(..))` ... `.collect()`
         st = c.parent
-        while st is not None and st.k != "let":
+        while st is not None and isinstance(st, Node) and st.k not in ("let", "closure", "if"):
             st = st.parent
-        nm = up(st["pat"]) if st is not None else None
+        nm = up(st["pat"]) if st is not None and st.k == "let" else None
         parent_for = c
-        while parent_for is not None and parent_for.k != "for":
+        while parent_for is not None and isinstance(parent_for, Node) and parent_for.k != "for":
             parent_for = parent_for.parent
-        ifs = [n for n in walk_no_nested_fn(parent_for["body"]) if n.k == "if"] if parent_for is not None else []
-        exits = [x for x in walk_no_nested_fn(parent_for["body"]) if x.k in ("break", "return", "continue")] if parent_for is not None else []
+        cl = c.parent
+        while cl is not None and isinstance(cl, Node) and cl.k != "closure":
+            cl = cl.parent
+        if cl is not None and cl.parent is not None and cl.parent.k == "mcall" and cl.parent["method"] == "filter" and (parent_for is None or not _inside(cl, parent_for)):
+            body = strip(cl["body"])
+            while body.k == "block" and len(body["stmts"]) == 1 and body["stmts"][0].k == "expr_stmt":
+                body = strip(body["stmts"][0]["e"])
+            chain = cl.parent
+            meths = []
+            x = chain
+            while x is not None and isinstance(x, Node) and x.k == "mcall":
+                meths.append(x["method"])
+                x = x.parent if (x.parent is not None and isinstance(x.parent, Node) and x.parent.k == "mcall" and strip(x.parent["recv"]) is x) else None
+            bad = [m_ for m_ in meths if m_ in ("take_while", "skip_while", "take", "skip", "find", "position", "step_by", "rev", "last", "nth", "next")]
+            if bad:
+                res.fail("overlaps/early-exit", c, "the scan over a node's children is cut short by `.%s(..)`: children are ordered by START only, so every child has to be tested" % bad[0])
+                return
+            if body is not c or "collect" not in meths:
+                res.undecided("overlaps/use", c, "children are selected by an iterator chain (%s) whose effect the rule does not recognise" % ".".join(meths))
+            continue
+        if parent_for is None:
+            res.undecided("overlaps/use", c, "the scan over the children is neither a `for` loop nor a filter chain")
+            continue
+        ifs = [n for n in walk_no_nested_fn(parent_for["body"]) if n.k == "if"]
+        exits = [x for x in walk_no_nested_fn(parent_for["body"]) if x.k in ("break", "return", "continue")]
         if exits:
             res.fail("overlaps/early-exit", exits[0], "the scan over a node's children stops early (`%s`): children are ordered by START only, so a later child can still reach "
                      "back into the query (a bigBed block holding a long entry) and would be missed" % up(exits[0]))
             return
-        if len(ifs) != 1 or up(strip(ifs[0]["cond"])) != nm or not list(calls(ifs[0]["then"], method="push")) or ifs[0].get("else") is not None:
+        cond_ok = len(ifs) == 1 and (up(strip(ifs[0]["cond"])) == nm or strip(ifs[0]["cond"]) is c)
+        if not cond_ok or not list(calls(ifs[0]["then"], method="push")) or ifs[0].get("else") is not None:
             res.fail("overlaps/use", c, "every child must be tested and pushed iff overlaps(..) holds (no other branch)")
             return
     res.ok(no, "both call sites pass (query, child span) positionally and push the child iff overlaps")
